@@ -99,6 +99,35 @@ Proof. exact default_spec_pf. Qed.
 Theorem valid_path_name_ok : forall name, is_valid_path name = true -> name_ok name = true.
 Proof. exact valid_path_name_ok_pf. Qed.
 
+(* handler layouts.  [cfg_layout name res acc l q] is the configuration of a service whose mux tree
+   holds the registrations l (one entry per Handle call: nested below other handlers, on placeholder
+   or wildcard patterns, inside mounted muxes, on the root pattern ""); the hypothesis relating the
+   layout to c_has_res / c_has_acc is exactly "SOME registered handler has a method of the kind": *)
+Theorem layout_kinds : forall name res acc l q,
+  (c_has_res (cfg_layout name res acc l q) = true <-> exists h, In h l /\ h_res h = true) /\
+  (c_has_acc (cfg_layout name res acc l q) = true <-> exists h, In h l /\ h_acc h = true).
+Proof. exact layout_kinds_pf. Qed.
+Theorem default_layout : forall name l q,
+  owned_res (cfg_layout name None None l q) = (if existsb h_res l then default_ownership name else []) /\
+  owned_acc (cfg_layout name None None l q) = (if existsb h_acc l then default_ownership name else []) /\
+  reset_payload (cfg_layout name None None l q) =
+    reset_event (if existsb h_res l then default_ownership name else [])
+                (if existsb h_acc l then default_ownership name else []).
+Proof. exact default_layout_pf. Qed.
+(* with the default ownership: as soon as some registered handler, wherever it sits, has a method of a
+   kind, every request of that kind for the service name or anything below it reaches a subscription
+   (coverage, nonredundant, subjects_valid and reset_exact above hold for every configuration, so in
+   particular for every layout) *)
+Theorem default_layout_coverage : forall name l q r, name_ok name = true -> nats_concrete r = true ->
+  is_nil name || is_prefix (tokens name) (tokens r) = true ->
+  ((exists h, In h l /\ h_res h = true) ->
+     (exists sub, In sub (subscriptions (cfg_layout name None None l q)) /\ nats_match sub (subj_plain t_get r) = true) /\
+     (forall t m, t = t_call \/ t = t_auth -> method_ok m = true ->
+        exists sub, In sub (subscriptions (cfg_layout name None None l q)) /\ nats_match sub (subj_method t r m) = true)) /\
+  ((exists h, In h l /\ h_acc h = true) ->
+     exists sub, In sub (subscriptions (cfg_layout name None None l q)) /\ nats_match sub (subj_plain t_access r) = true).
+Proof. exact default_layout_coverage_pf. Qed.
+
 (* the subscribed subjects do not depend on the queue group; every call carries the configured one *)
 Theorem queue_group_irrelevant : forall c q,
   map fst (subscribe_calls (with_queue c q)) = subscriptions c /\
@@ -156,3 +185,11 @@ Example nonvacuous_coverage :
   nats_match (s2b "lib.*.book") (s2b "lib.x.book") = true /\ method_ok (s2b "set") = true /\
   match_count (subj_method t_call (s2b "lib.x.book") (s2b "set")) (subscriptions c) = 1%nat.
 Proof. vm_compute. repeat split. left. reflexivity. Qed.
+(* the only Access handler sits below another handler's pattern *)
+Example nonvacuous_layout :
+  let l := [HReg (s2b "users") true false; HReg (s2b "users.$id") true true] in
+  let c := cfg_layout (s2b "svc") None None l (s2b "svc") in
+  cfg_ok c = true /\ c_has_acc c = true /\
+  subscriptions c = [s2b "get.svc"; s2b "get.svc.>"; s2b "call.svc.>"; s2b "auth.svc.>"; s2b "access.svc"; s2b "access.svc.>"] /\
+  reset_payload c = Some (Some [s2b "svc"; s2b "svc.>"], Some [s2b "svc"; s2b "svc.>"]).
+Proof. vm_compute. repeat split. Qed.
